@@ -9,6 +9,7 @@ C20 driver.  Case lines (all byte strings hex, `-` = empty):
   conc <round> <idx> <cfd-args>                                       own slice, read after concurrent builds
   reset <mode> <secret> <addr> <uuid> <name> <props> <proto> <key>    new backend login handler
   pm <channel> <id> <data> <writeOk> | ls | enc | dc | sc <ok> | oth  one HandlePacket call
+  secret <hex>                                                        config reload: forwarding secret rotated
 
 <props> = `_` or `name,value,sig;…`;  <key> = `-` or `rev,expiryMs,pub,sig,holder` (rev ∈ nil|v1|v2|other).
 
@@ -139,6 +140,11 @@ def step' (ds : DS) (c : Case) : DS × String × String :=
   | "conc", _round :: _idx :: secret :: addr :: uuid :: name :: props :: proto :: key :: req :: _ =>
     (ds, (heldOut secret addr uuid name props proto key req c.impl).1,
          (heldOut secret addr uuid name props proto key req c.impl).2)
+  -- config reload with a rotated forwarding secret: every later answer is judged under the NEW secret
+  | "secret", [secret] =>
+    match ds.cfg, parseHex secret with
+    | some cfg, some sec => ({ ds with cfg := some { cfg with secret := sec } }, "-", "-")
+    | _, _ => (ds, "bad-op", "-")
   | "reset", [mode, secret, addr, uuid, name, props, proto, key] =>
     match parseMode mode, parseHex secret, parseHex addr, parsePlayer uuid name props proto key with
     | some m, some secret, some addr, some p => ({ cfg := some ⟨m, secret, addr, p⟩ }, "-", "-")
